@@ -763,6 +763,50 @@ fn pretty_tokens(text: &str, edition: &str) -> Option<Vec<Vec<String>>> {
     Some(units.iter().map(|u| tokens_of(u)).collect())
 }
 
+/// A numeric literal by VALUE (DESIGN.md F.5): `_` removed, hex digits / exponent marker in
+/// lower case, and -- for floats -- the spelling of an all-zero or empty fractional part
+/// (`1.`, `1.0`, `1.00` are one number; `1` the integer is another: floats keep an `f:` mark).
+fn canon_number(s: &str, is_float: bool) -> String {
+    let body_end = s
+        .char_indices()
+        .find(|(i, c)| {
+            // the suffix starts at the first letter that cannot belong to the number
+            let hex = s.starts_with("0x");
+            *i > 0
+                && c.is_ascii_alphabetic()
+                && !(hex && c.is_ascii_hexdigit())
+                && !(!hex && (*c == 'e' || *c == 'E') && is_float
+                    && s[*i + 1..].chars().next().map_or(false, |n| n.is_ascii_digit() || n == '+' || n == '-' || n == '_'))
+                && !(*i == 1 && s.starts_with('0') && matches!(c, 'x' | 'o' | 'b'))
+        })
+        .map_or(s.len(), |(i, _)| i);
+    let (num, suffix) = s.split_at(body_end);
+    let mut num: String = num.chars().filter(|c| *c != '_').collect::<String>().to_ascii_lowercase();
+    if is_float {
+        let (mant, exp) = match num.find('e') {
+            Some(i) => (num[..i].to_owned(), num[i..].to_owned()),
+            None => (num.clone(), String::new()),
+        };
+        let mant = if let Some(dot) = mant.find('.') {
+            let frac = mant[dot + 1..].trim_end_matches('0');
+            if mant.len() == dot + 1 && exp.is_empty() {
+                // `1.`: the spelling that needs parentheses / a blank before `.` or `..`
+                // (class `floatdot` of the ledger)
+                mant.clone()
+            } else if frac.is_empty() {
+                mant[..dot].to_owned()
+            } else {
+                format!("{}.{}", &mant[..dot], frac)
+            }
+        } else {
+            mant
+        };
+        let exp = exp.replace("e+", "e");
+        num = format!("f:{mant}{exp}");
+    }
+    format!("{num}{suffix}")
+}
+
 fn tokens_of(printed: &str) -> Vec<String> {
     use rustc_lexer::TokenKind as T;
     let mut toks: Vec<String> = vec![];
@@ -831,6 +875,7 @@ fn tokens_of(printed: &str) -> Vec<String> {
                         }
                         toks.push(v);
                     }
+                    L::Int { .. } | L::Float { .. } => toks.push(canon_number(s, matches!(kind, L::Float { .. }))),
                     _ => toks.push(s.to_owned()),
                 }
             }
@@ -960,7 +1005,7 @@ fn ledger_tokens(a: &[String], b: &[String]) -> Value {
             || t.starts_with("c\"") || t.starts_with("br")
         {
             "str"
-        } else if c.is_ascii_digit() {
+        } else if c.is_ascii_digit() || t.starts_with("f:") {
             if t.ends_with('.') { "floatdot" } else { "num" }
         } else if c == '\'' {
             "charlt"
